@@ -64,8 +64,9 @@ class D(Driver):
         ("picosvg.svg_types", "SVGShape.bounding_box"),
         ("picosvg.svg_pathops", "bounding_box"),
     )
-    deciding_monitors = ("clip_to_viewbox", "bounding_box")
+    deciding_monitors = ("clip_to_viewbox", "bounding_box", "Rect.intersection", "Rect.union")
     nt_floor = {"quick": 200, "thorough": 4000}
+    feature_floors = {"clipped.touches_border": 40, "clipped.fully_outside": 40, "clipped.group_partly_clipped_away": 30}
     time_budget = {"quick": 150, "thorough": 1200}
 
     def cases(self, tier, seed):
@@ -100,6 +101,49 @@ class D(Driver):
             return bounding_box
 
         attach.wrap_method(T.SVGShape, "bounding_box", make)
+
+        # Rect.intersection / Rect.union against interval arithmetic done here
+        from picosvg.geometric_types import Rect
+
+        self.Rect = Rect
+
+        def ref_isect(a, b):
+            x1, x2 = max(a[0], b[0]), min(a[0] + a[2], b[0] + b[2])
+            y1, y2 = max(a[1], b[1]), min(a[1] + a[3], b[1] + b[3])
+            return (x1, y1, x2 - x1, y2 - y1) if x2 > x1 and y2 > y1 else None
+
+        def ref_union(a, b):
+            x, y = min(a[0], b[0]), min(a[1], b[1])
+            return (x, y, max(a[0] + a[2], b[0] + b[2]) - x, max(a[1] + a[3], b[1] + b[3]) - y)
+
+        def make_rect(name, ref):
+            def mk(orig):
+                def w(self_, other):
+                    r = orig(self_, other)
+                    attach.count("Rect." + name)
+                    a, b = tuple(map(float, self_)), tuple(map(float, other))
+                    if not all(map(math.isfinite, a + b)) or min(a[2], a[3], b[2], b[3]) < 0:
+                        events.emit("Rect." + name, "out_of_domain")
+                        return r
+                    want = ref(a, b)
+                    got = None if r is None else tuple(map(float, r))
+                    scale = 1 + max(abs(v) for v in a + b)
+                    ok = (want is None) == (got is None) and (want is None or max(abs(x - y) for x, y in zip(want, got)) <= 1e-9 * scale)
+                    if ok:
+                        events.emit("Rect." + name, "ok")
+                        if want is not None:
+                            events.COUNT["Rect." + name + ".nonempty_result"] += 1
+                    else:
+                        events.emit("Rect." + name, "violation", rule="rect_" + name, sig="Rect." + name,
+                                    msg=f"Rect{a}.{name}(Rect{b}) = {got}, interval arithmetic gives {want}", replay={"kind": "rect", "op": name, "a": a, "b": b})
+                    return r
+
+                return w
+
+            attach.wrap_method(Rect, name, mk)
+
+        make_rect("intersection", ref_isect)
+        make_rect("union", ref_union)
 
     # ------------------------------------------------------------ clip_to_viewbox
     def _pico_doc(self, rng):
@@ -160,6 +204,9 @@ class D(Driver):
             res["viol"].append(dict(rule="not_picosvg", sig="clip_to_viewbox:not_picosvg", msg=f"clip_to_viewbox output fails checkpicosvg: {chk}\n{out[:800]}",
                                     replay={"kind": "clip", "doc": pico}))
             return
+        for k, v in feats.items():
+            if k in ("touches_border", "fully_outside", "group_partly_clipped_away"):
+                bump(res["features"], "clipped." + k, v)  # only documents whose clipping returned
         m = re.search(r"<g(?![^>]*opacity)[^>]*>|<g[^>]*>\s*(<path[^>]*/>)?\s*</g>", out)
         try:
             a, b = RR.build(pico), RR.build(out)
@@ -217,7 +264,8 @@ class D(Driver):
                     straddle = True
                 ok = not cb
             if not ok:
-                res["viol"].append(dict(rule="clip_render", sig="clip_to_viewbox:" + ("inside_changed" if inside else "paint_outside_viewbox"),
+                mech = self._clip_engine_fault(pico, p)
+                res["viol"].append(dict(rule="clip_render", sig="clip_to_viewbox:" + ("inside_changed" if inside else "paint_outside_viewbox") + (f":{mech}" if mech else ""), mech=mech,
                                         msg=f"viewBox {vb}: at {p} ({'inside' if inside else 'outside'}) input renders {ca}, clipped output renders {cb}\nINPUT: {pico[:1500]}\nOUTPUT: {out[:1500]}",
                                         replay={"kind": "clip", "doc": pico}))
                 return
@@ -229,6 +277,31 @@ class D(Driver):
             res["nt"].append(h8(pico))
         if res["sample"] is None and straddle:
             res["sample"] = {"pico_document": pico[:1200], "viewBox": vb}
+
+    def _clip_engine_fault(self, pico, point):
+        """Attribution: re-run the clipping with the C13 pathop monitor judging every boolean
+        operation at (and around) the mismatching point; a wrong intersection that a direct
+        skia-pathops call reproduces is the engine's."""
+        from picomon.monitors import boolmon
+
+        if not getattr(self, "_boolmon", False):
+            boolmon.STATE["judge"] = False
+            boolmon.install()
+            self._boolmon = True
+        saved = events.drain()
+        boolmon.STATE.update(judge=True, n=0, cap=400, extra_points=[point])
+        try:
+            self.SVG.fromstring(pico).clip_to_viewbox().tostring()
+        except Exception as e:
+            if events.is_harness_exc(e):
+                raise
+        finally:
+            boolmon.STATE.update(judge=False, extra_points=None)
+        evs = events.drain()
+        events.LOG.extend(saved)
+        if any(ev.get("mech") == "skia-engine-wrong-result" for ev in evs):
+            return "skia-engine-wrong-result"
+        return None
 
     # ------------------------------------------------------------ bounding boxes
     def _bbox_case(self, rng, res):
@@ -256,6 +329,30 @@ class D(Driver):
             if events.is_harness_exc(e):
                 raise
             bump(res["counters"], "bbox_exception." + type(e).__name__)
+        # rectangle algebra: overlapping, nested, touching, disjoint (near and far), degenerate
+        for _ in range(3):
+            ax, ay, aw, ah = rng.uniform(-50, 50), rng.uniform(-50, 50), rng.choice((0.0, rng.uniform(0.1, 60))), rng.uniform(0.1, 60)
+            kk = rng.random()
+            if kk < 0.25:
+                b = (ax + aw + rng.choice((0.0, 0.5, 3.0, 20.0)), ay + rng.uniform(-10, 10), rng.uniform(1, 30), rng.uniform(1, 30))
+            elif kk < 0.4:
+                b = (ax + rng.uniform(0, aw / 2), ay + rng.uniform(0, ah / 2), aw / 4, ah / 4)
+            elif kk < 0.55:
+                b = (ax + rng.uniform(-5, 5), ay - rng.uniform(1, 30) - rng.choice((0.0, 0.5, 4.0)), rng.uniform(1, 30), rng.uniform(1, 30))
+                b = (b[0], b[1], b[2], ay - b[1] - rng.choice((0.0, 0.5, 4.0)))
+            else:
+                b = (rng.uniform(-60, 60), rng.uniform(-60, 60), rng.uniform(0.1, 60), rng.uniform(0.1, 60))
+            if b[3] < 0:
+                b = (b[0], b[1], b[2], 0.0)
+            try:
+                A, B = self.Rect(ax, ay, aw, ah), self.Rect(*b)
+                A.intersection(B)
+                B.intersection(A)
+                A.union(B)
+            except Exception as e:
+                if events.is_harness_exc(e):
+                    raise
+                bump(res["counters"], "rect_exception." + type(e).__name__)
         # document level: union over shapes
         if rng.random() < 0.15:
             shapes = [gd.to_xml(gd.Node("path", {"d": gp.render(gs.blob(rng, rng.uniform(0, 100), rng.uniform(0, 100), rng.uniform(3, 30)))})) for _ in range(rng.randint(2, 4))]
@@ -309,8 +406,32 @@ class D(Driver):
                     if ca is None or cb is None:
                         continue
                     if (inside and max(abs(x - y) for x, y in zip(ca, cb)) > 4e-3) or (not inside and cb[3] > 1e-9):
-                        res["viol"].append(dict(rule="clip_render", msg=f"at {p}: {ca} -> {cb}"))
+                        res["viol"].append(dict(rule="clip_render", mech=self._clip_engine_fault(rp["doc"], p), msg=f"at {p}: {ca} -> {cb}"))
                         break
             except Exception as e:
                 res["viol"].append(dict(rule="exception", msg=repr(e)))
-        return res["viol"] + [dict(rule=ev["rule"], msg=ev["msg"]) for ev in events.drain()]
+        elif rp.get("kind") == "rect":
+            try:
+                getattr(self.Rect(*rp["a"]), rp["op"])(self.Rect(*rp["b"]))
+            except Exception:
+                pass
+        elif rp.get("kind") == "bbox":
+            T = self.T
+            cls = {"rect": T.SVGRect, "circle": T.SVGCircle, "ellipse": T.SVGEllipse, "line": T.SVGLine, "polygon": T.SVGPolygon,
+                   "polyline": T.SVGPolyline, "path": T.SVGPath}[rp.get("tag", "path")]
+            try:
+                cls(**rp["fields"]).bounding_box()
+            except Exception:
+                pass
+        elif rp.get("kind") == "docbbox":
+            try:
+                doc = rp["doc"]
+                bb = self.SVG.fromstring(doc).bounding_box()
+                boxes = [PG.tight_bbox(G.parse(d)) for d in re.findall(r'<path[^>]* d="([^"]*)"', doc)]
+                want = (min(b[0] for b in boxes), min(b[1] for b in boxes), max(b[2] for b in boxes), max(b[3] for b in boxes))
+                got = (bb.x, bb.y, bb.x + bb.w, bb.y + bb.h)
+                if max(abs(x - y) for x, y in zip(got, want)) > 3e-5 * (1 + max(abs(v) for v in want)):
+                    res["viol"].append(dict(rule="doc_bbox", msg=f"document box {got} vs union of tight shape boxes {want}"))
+            except Exception:
+                pass
+        return res["viol"] + [dict(rule=ev["rule"], mech=ev.get("mech"), msg=ev["msg"]) for ev in events.drain()]
